@@ -35,7 +35,8 @@ Value(d, q) ==
 \* transcription: _findIndex uses bisect.bisect_left over the x values
 BisectLeft(d, q) == Cardinality({i \in 1..Len(d) : RLt(R(d[i][1]), q)}) + 1     \* 1-based insertion point
 ImplValue(d, q) ==
-  IF RLt(q, R(d[1][1])) \/ RLt(R(d[Len(d)][1]), q) THEN RZero                   \* _findIndex returns None
+  IF d = <<>> THEN RZero     \* a file without data rows: every x is outside (before finding F43: self[0] raised IndexError)
+  ELSE IF RLt(q, R(d[1][1])) \/ RLt(R(d[Len(d)][1]), q) THEN RZero                   \* _findIndex returns None
   ELSE LET idx == BisectLeft(d, q)
            low == IF REq(R(d[idx][1]), q) THEN idx ELSE idx - 1 IN
        IF REq(R(d[low][1]), q) THEN R(d[low][2])
@@ -46,7 +47,7 @@ ImplValue(d, q) ==
 
 Xs == 0..3
 Ys == {-2, 0, 3}
-DataSets == UNION {{d \in [1..n -> Xs \X Ys] : Sorted(d)} : n \in 1..3}
+DataSets == UNION {{d \in [1..n -> Xs \X Ys] : Sorted(d)} : n \in 0..3}
 Queries == {<<n, 2>> : n \in -1..7}
 ReaderOK == \A d \in DataSets, q \in Queries : ImplValue(d, q) = Value(d, q)
 BetweenNeighbours == \A d \in DataSets, q \in Queries :
